@@ -33,9 +33,11 @@ initialisation functions every write of `h.dnsdb` / `h.dbConfig.Path` happens un
 exclusively and every read under `reloadMu` (in whichever function or helper the access lives: the
 rows of a helper list the lock every one of its callers holds); `FBDNSDB.Reload` itself holds it
 exclusively at each of its accesses; the pointer and the path are written, and the path read, under
-the exclusive lock somewhere; the only access of a query to `h.dnsdb` (`acquireReaderGen`, where the
-reader pins its instance) is under `reloadMu` held shared. Hence no `qstart` can fall between the
-first and the last of a reload's accesses: one model step each. -/
+the exclusive lock somewhere, and the pointer is read under the shared lock somewhere (the query
+path: `acquireReaderGen`, where the reader pins its instance - that its pointer read, `NewReader` and
+the generation read form ONE shared section is C06's `acquire_atomic`, on the lock trace);
+`ServeDNSWithRCODE` itself touches neither field. Hence no `qstart` can fall between the first and the
+last of a reload's accesses: one model step each. -/
 theorem reload_and_acquire_exclude_each_other :
     ((rows.filter fun r => !r.init ∧ r.write ∧
         (r.field = "FBDNSDB.dnsdb" ∨ r.field = "FBDNSDB.dbConfig.Path")).all
@@ -50,9 +52,8 @@ theorem reload_and_acquire_exclude_each_other :
     (rows.any fun r => !r.init ∧ r.field = "FBDNSDB.dbConfig.Path" ∧ r.write) = true ∧
     (rows.any fun r => !r.init ∧ r.field = "FBDNSDB.dbConfig.Path" ∧ !r.write ∧
         r.locks.contains ("FBDNSDB.reloadMu", true)) = true ∧
-    ((rows.filter fun r => r.fn = "FBDNSDB.acquireReaderGen" ∧ r.field = "FBDNSDB.dnsdb").all
-      fun r => r.locks.contains ("FBDNSDB.reloadMu", false)) = true ∧
-    (rows.any fun r => r.fn = "FBDNSDB.acquireReaderGen" ∧ r.field = "FBDNSDB.dnsdb") = true ∧
+    (rows.any fun r => !r.init ∧ !r.write ∧ r.field = "FBDNSDB.dnsdb" ∧
+        r.locks.contains ("FBDNSDB.reloadMu", false)) = true ∧
     ((rows.filter fun r => r.fn = "FBDNSDB.ServeDNSWithRCODE").all
       fun r => r.field ≠ "FBDNSDB.dnsdb" ∧ r.field ≠ "FBDNSDB.dbConfig.Path") = true := by
   decide +kernel
